@@ -188,18 +188,19 @@ func parseBehaviour(steps []*Step) (txs []*Tx, exp [][]*Step, err error) {
 }
 
 // aborting: an "abort" record was met in a nested frame and the enclosing frames still have to end on it
-var aborting bool
+
+type parser struct{ aborting bool }
 
 func parseScript(steps []*Step, i int, host string, isInit bool) (*Script, int, error) {
-	return parseFrame(steps, i, host, isInit, 1)
+	return (&parser{}).parseFrame(steps, i, host, isInit, 1)
 }
 
-func parseFrame(steps []*Step, i int, host string, isInit bool, depth int) (*Script, int, error) {
+func (ps *parser) parseFrame(steps []*Step, i int, host string, isInit bool, depth int) (*Script, int, error) {
 	sc := &Script{host: host, isInit: isInit}
 	endAbort := func() (*Script, int, error) {
 		sc.ops = append(sc.ops, &Op{A: "stop"})
 		if int(cint(steps[i].C, "d")) == depth {
-			aborting = false
+			ps.aborting = false
 			return sc, i + 1, nil
 		}
 		return sc, i, nil // the enclosing frames end on the same record
@@ -216,13 +217,13 @@ func parseFrame(steps []*Step, i int, host string, isInit bool, depth int) (*Scr
 				if s.A == "create" {
 					h = "N"
 				}
-				op.Sub, i, err = parseFrame(steps, i, h, s.A == "create", depth+1)
+				op.Sub, i, err = ps.parseFrame(steps, i, h, s.A == "create", depth+1)
 				if err != nil {
 					return nil, i, err
 				}
 			}
 			sc.ops = append(sc.ops, op)
-			if aborting {
+			if ps.aborting {
 				return endAbort()
 			}
 		case sendOps[s.A]:
@@ -232,7 +233,7 @@ func parseFrame(steps []*Step, i int, host string, isInit bool, depth int) (*Scr
 			// an UNWRAP towards an external beneficiary: the operation never completes; this frame and its callers
 			// (up to the nearest creation frame, whose depth the record carries) end here
 			sc.ops = append(sc.ops, &Op{A: cstr(s.C, "k"), Dest: s.Y, Amt: s.V, Gl: cstr(s.C, "gl"), Fee: cstr(s.C, "fee"), Al: cstr(s.C, "al")})
-			aborting = true
+			ps.aborting = true
 			return endAbort()
 		case endOps[s.A]:
 			sc.ops = append(sc.ops, &Op{A: s.A, Target: s.Y})
@@ -640,7 +641,7 @@ func lockupGas(cls string) uint64 {
 func (w *World) alBlob(cls string) []byte {
 	switch cls {
 	case "good":
-		al := types.AccessList{{Address: w.addrOf("E2"), StorageKeys: nil}}
+		al := types.AccessList{{Address: w.ext["inscope"], StorageKeys: nil}}
 		b, err := rlp.EncodeToBytes(al)
 		if err != nil {
 			panic(err)
